@@ -28,7 +28,7 @@ def run(r):
     run_fga(r, "C11", {"none", "hamming", "callable"}, labels={"kdtree-worker"}, floor=6)
     rep.floor("C11-ORD", 5)
     rep.floor("C11-IV", 1)
-    rep.floor("C11-BLK", 3)
+    rep.floor("C11-BLK", 1)
     rep.floor("C11-WHO", 2)
     rep.floor("C11-PURE", 2)
     rep.floor("C11-LIM", 8)
